@@ -401,6 +401,8 @@ def subst_items(tag, sub, assign=None, top=True, nonec=None):
         elif tag[0] == 'app':
             args = tuple(subst_items(a, sub, assign, True, nonec) for a in tag[2]); f = tag[1]
             native = [is_native(a) for a in args]
+            if f == 'bin:%' and const_of(args[0])[0] and isinstance(const_of(args[0])[1], (str, bytes)):
+                raise SkipValidation('str % x is formatted by CPython itself (str.__mod__ is tried before the reflected operator)')
             if (f.startswith('un:') and native[0]) or (f.startswith('bin:') and all(native)) or (f in CMPSYM.values() and native[0]) \
                     or (f.startswith('attr:') and native[0]) or (f == 'subscr' and native[0]) or (f.startswith('call') and native[0]) or (f == 'in' and native[1]):
                 raise SkipValidation('operator applied to a constant operand is computed by CPython itself')
